@@ -391,6 +391,17 @@ func (tt *TermTable) bin(op Op, a, b *Term) *Term {
 		if a == b {
 			return a
 		}
+		// byte reassembly: two pieces occupying adjacent bit ranges become one concatenation
+		if la, ha, ia, oka := placedPiece(a); oka {
+			if lb, hb, ib, okb := placedPiece(b); okb {
+				if lb == ha+1 {
+					return tt.place(tt.Concat(ib, ia), la, w)
+				}
+				if la == hb+1 {
+					return tt.place(tt.Concat(ia, ib), lb, w)
+				}
+			}
+		}
 	case OpXor:
 		if a.IsConst() {
 			a, b = b, a
@@ -421,6 +432,32 @@ func (tt *TermTable) bin(op Op, a, b *Term) *Term {
 		}
 	}
 	return tt.mk(termKey{op: op, w: w}, a, b, nil, nil)
+}
+
+// placedPiece recognises zext(u) and shl(zext(u), c): u occupies bits [lo, hi], all others zero.
+func placedPiece(t *Term) (lo, hi uint16, inner *Term, ok bool) {
+	switch t.op {
+	case OpZExt:
+		return 0, t.a.w - 1, t.a, true
+	case OpShl:
+		if t.b.IsConst() && t.a.op == OpZExt && t.b.val+uint64(t.a.a.w) <= uint64(t.w) {
+			c := uint16(t.b.val)
+			return c, c + t.a.a.w - 1, t.a.a, true
+		}
+	}
+	return 0, 0, nil, false
+}
+
+// place puts inner at bit offset lo of a width-w word (zeros elsewhere).
+func (tt *TermTable) place(inner *Term, lo, w uint16) *Term {
+	if inner.w == w {
+		return inner
+	}
+	z := tt.ZExt(inner, w)
+	if lo == 0 {
+		return z
+	}
+	return tt.mk(termKey{op: OpShl, w: w}, z, tt.BV(uint64(lo), w), nil, nil)
 }
 
 func (tt *TermTable) Add(a, b *Term) *Term  { return tt.bin(OpAdd, a, b) }
@@ -469,6 +506,11 @@ func (tt *TermTable) Extract(a *Term, hi, lo uint16) *Term {
 		return tt.mapCT(a, func(l *Term) *Term { return tt.Extract(l, hi, lo) }, map[int32]*Term{})
 	}
 	switch a.op {
+	case OpLShr:
+		if a.b.IsConst() && uint64(hi)+a.b.val < uint64(a.w) {
+			c := uint16(a.b.val)
+			return tt.Extract(a.a, hi+c, lo+c)
+		}
 	case OpZExt:
 		iw := a.a.w
 		if lo >= iw {
@@ -558,6 +600,15 @@ func (tt *TermTable) SExt(a *Term, w uint16) *Term {
 }
 
 func (tt *TermTable) Concat(hi, lo *Term) *Term {
+	// adjacent slices of one term merge: x[h1:l1] ++ x[l1-1:l2] = x[h1:l2]
+	if hi.op == OpExtract {
+		if lo.op == OpExtract && hi.a == lo.a && uint16(hi.val&0xffff) == uint16(lo.val>>16)+1 {
+			return tt.Extract(hi.a, uint16(hi.val>>16), uint16(lo.val&0xffff))
+		}
+		if lo.op == OpConcat && lo.a.op == OpExtract && hi.a == lo.a.a && uint16(hi.val&0xffff) == uint16(lo.a.val>>16)+1 {
+			return tt.Concat(tt.Extract(hi.a, uint16(hi.val>>16), uint16(lo.a.val&0xffff)), lo.b)
+		}
+	}
 	w := hi.w + lo.w
 	if hi.IsConst() && lo.IsConst() {
 		return tt.BV(hi.val<<lo.w|lo.val, w)
